@@ -233,10 +233,9 @@ def make(cfg, select, known=()):
             ask(("C05", "C14") if alg in EXACT_ALGS else "C05", "false-inconsistency", z3.And(inbox, rel), tup=t, status=status)
             ask("C06", "ground-satisfying-rejected", z3.And(ground, gp, relg), status=status)
             if alg == "affine_eq" and "C14" in select:
-                ref = affine_ref(lo, hi, pz)
-                some_empty = OR([a > b for a, b in ref])
-                ref_ground_viol = z3.And(AND([a == b for a, b in ref]), z3.Not(R([a for a, _ in ref], pz)))
-                ask("C14", "affine-eq-ref-mismatch", z3.Not(z3.Or(some_empty, ref_ground_viol)), status=status)
+                # inconsistency is legitimate exactly when no tuple of the box satisfies the equation (one round of interval
+                # reasoning emptying a domain, or all variables with a non-zero coefficient instantiated on a violating point)
+                ask("C14", "false-inconsistency", z3.And(inbox, rel), tup=t, status=status)
             return
 
         outbox = AND([z3.And(outz[i][0] <= t[i], t[i] <= outz[i][1]) for i in range(n)])
